@@ -91,7 +91,7 @@ contract('ResourceManager._record_resource_amount_update', props=['C15'], args={
 
 specfn('pool_unchanged', ['self'], 'all(use(self, n) == old(use(self, n)) and cap(self, n) == old(cap(self, n)) for n in refs())')
 
-contract('ResourceManager.reserve_resources', props=['C09'], args={'request': 'dict[str,real]'}, modular=True,
+contract('ResourceManager.reserve_resources', props=['C09', 'C11'], args={'request': 'dict[str,real]'}, modular=True,
          result='ref:ReservedResources',
          requires={'initialised': 'self._env is not None and alive(self._env)',
                    'request_is_a_dict': 'request is not self._resources and alive(request)'},
@@ -162,7 +162,7 @@ RR_PRE = {'manager_ready': 'self._resource_manager._env is not None and alive(se
 contract('ReservedResources.reserved_resources', props=['C09'], args={}, result='dict[str,real]',
          ensures={'is_copy': 'fresh(result) and dmap(result) == dmap(self._reserved_resources)'}, modifies=[])
 
-contract('ReservedResources.release', props=['C09', 'C10'], args={'resources': 'dict[str,real]?'},
+contract('ReservedResources.release', props=['C09', 'C10', 'C11'], args={'resources': 'dict[str,real]?'},
          requires=dict(RR_PRE, argument_is_a_dict='resources is None or (alive(resources) and '
                                                   'resources is not self._resource_manager._resources)'),
          raises={'ValueError': ('only_if:resources is not None', {'raises_unchanged': '@frame:'}),
